@@ -338,3 +338,12 @@ Proof.
   apply (c31_terminates key key_eqb H act Hk Hinj r Hwf s0 Htr oc Hoc (map (plan r) reqs) Hreq).
   intros ts Hts. apply in_map_iff in Hts. destruct Hts as (req & <- & _). apply plan_deps_closed. exact Hwf.
 Qed.
+
+Lemma ex_plan_nonvacuous :
+  requests_ok act_cmd ex_repo (map (plan ex_repo) [[s "//p:b"]; [s "//p:b"]])
+  /\ map (plan ex_repo) [[s "//p:b"]; [s "//p:b"]] = [ex_repo; ex_repo]
+  /\ mu ckey (cinit_c (empty_store ckey) (Some (empty_cache ckey)) [ex_repo; ex_repo]) = 12.
+Proof.
+  assert (E : map (plan ex_repo) [[s "//p:b"]; [s "//p:b"]] = [ex_repo; ex_repo]) by (vm_compute; reflexivity).
+  split; [rewrite E; exact ex_requests_ok|]. split; [exact E|vm_compute; reflexivity].
+Qed.
